@@ -1,3 +1,4 @@
-from .iterator import *   # registers the units shared by C08 / C09 / C10
+from .iterator import *
+from .renderable import *   # registers the units shared by C08 / C09 / C10
 from .C08 import TRUSTED, ASSUMPTIONS
 NOT_DECIDED = []
